@@ -68,15 +68,11 @@ class StandardLengthType(DiagCodedType):
         if self.bit_mask is None:
             return None
 
+        # the mask is specified like the value, i.e., as a big endian
+        # number. (EncodeState.emplace_atomic_value() swaps the bytes
+        # of the mask together with those of the value if the object
+        # exhibits low-high byte order.)
         endianness: Literal["little", "big"] = "big"
-        if not self.is_highlow_byte_order and self.base_data_type in [
-                DataType.A_INT32, DataType.A_UINT32, DataType.A_FLOAT32, DataType.A_FLOAT64
-        ]:
-            # TODO (?): Technically, little endian A_UNICODE2STRING
-            # objects require a byte swap for each 16 bit letter, and
-            # thus also for the mask. I somehow doubt that this has
-            # been anticipated by the standard, though...
-            endianness = "little"
 
         if self.is_condensed:
             # if a condensed bitmask is specified, the number of bits
